@@ -78,6 +78,7 @@ class Ctx:
         self.log = []
         self.query_log = []  # (kind, result, seconds)
         self.default_timeout = 20000
+        self.unify_timeout = 8000
 
     # ---- nodes
     def const(self, c):
@@ -459,7 +460,7 @@ class Ctx:
         elif self.probably_different(x, y):
             r = False
         else:
-            res, _ = self.check(Rel("!=", diff_numerator(self, x, y)), timeout=timeout or 5000, kind=kind, use_pc=False)
+            res, _ = self.check(Rel("!=", diff_numerator(self, x, y)), timeout=timeout or self.unify_timeout, kind=kind, use_pc=False)
             r = res == "unsat"
         self.eq_cache[key] = r
         return r
